@@ -35,6 +35,22 @@ M(sc, c, m) == sc.conns[c + 1].msgs[m + 1]
 MinOf(S) == CHOOSE x \in S : \A y \in S : x <= y
 MaxOf(S) == CHOOSE x \in S : \A y \in S : x >= y
 
+IsStop(x) == (x.cls \notin {"ok", "r505"}) \/ (x.cls = "ok" /\ x.last)
+
+\* index of the message at which parsing of connection c stops (NM if none)
+StopIdx(sc, c) ==
+    LET S == {m \in 0..(NM(sc, c) - 1) : IsStop(M(sc, c, m))}
+    IN  IF S = {} THEN NM(sc, c) ELSE MinOf(S)
+
+LastIdx(sc, c) == IF StopIdx(sc, c) < NM(sc, c) THEN StopIdx(sc, c) ELSE NM(sc, c) - 1
+
+\* messages (0-based) that produce a final frame, in wire order
+RECURSIVE SlotsFrom(_, _, _)
+SlotsFrom(sc, c, m) ==
+    IF m > LastIdx(sc, c) THEN <<>>
+    ELSE (IF M(sc, c, m).cls = "close" \/ M(sc, c, m).noframe THEN <<>> ELSE <<m>>) \o SlotsFrom(sc, c, m + 1)
+Slots(s, c) == s.slots[c + 1]
+
 CInit(sc) ==
     [ sent   |-> [c \in 1..NC(sc) |-> 0],
       fault  |-> [c \in 1..NC(sc) |-> "none"],
@@ -50,24 +66,9 @@ CInit(sc) ==
       junk   |-> [c \in 1..NC(sc) |-> FALSE],
       fbad   |-> [c \in 1..NC(sc) |-> FALSE],
       local  |-> [c \in 1..NC(sc) |-> ""],
-      lastSend |-> 0 ]                          \* instant of the latest client write    \* the client's own socket address (C02)   \* a frame-order violation was already reported
+      lastSend |-> 0,                           \* instant of the latest client write
+      slots  |-> [c \in 1..NC(sc) |-> SlotsFrom(sc, c - 1, 0)] ]   \* computed once per scenario    \* the client's own socket address (C02)   \* a frame-order violation was already reported
                                                    \* on c: later frame guards would be echoes
-
-IsStop(x) == (x.cls \notin {"ok", "r505"}) \/ (x.cls = "ok" /\ x.last)
-
-\* index of the message at which parsing of connection c stops (NM if none)
-StopIdx(sc, c) ==
-    LET S == {m \in 0..(NM(sc, c) - 1) : IsStop(M(sc, c, m))}
-    IN  IF S = {} THEN NM(sc, c) ELSE MinOf(S)
-
-LastIdx(sc, c) == IF StopIdx(sc, c) < NM(sc, c) THEN StopIdx(sc, c) ELSE NM(sc, c) - 1
-
-\* messages (0-based) that produce a final frame, in wire order
-RECURSIVE SlotsFrom(_, _, _)
-SlotsFrom(sc, c, m) ==
-    IF m > LastIdx(sc, c) THEN <<>>
-    ELSE (IF M(sc, c, m).cls = "close" \/ M(sc, c, m).noframe THEN <<>> ELSE <<m>>) \o SlotsFrom(sc, c, m + 1)
-Slots(sc, c) == SlotsFrom(sc, c, 0)
 
 ExpStatus(x) ==
     CASE x.cls = "r400" -> 400
@@ -114,8 +115,8 @@ SlotFlushes(x) == x.cls # "ok" \/ x.how \in {"respond", "drop", "panic", "upgrad
 \* number of leading slots that are done
 RECURSIVE DonePrefix(_, _, _, _)
 DonePrefix(s, sc, c, i) ==
-    IF i > Len(Slots(sc, c)) THEN i - 1
-    ELSE IF SlotDone(s, sc, c, Slots(sc, c)[i]) THEN DonePrefix(s, sc, c, i + 1) ELSE i - 1
+    IF i > Len(Slots(s, c)) THEN i - 1
+    ELSE IF SlotDone(s, sc, c, Slots(s, c)[i]) THEN DonePrefix(s, sc, c, i + 1) ELSE i - 1
 
 \* the connection has nothing more to parse
 Stopped(s, sc, c) ==
@@ -126,7 +127,7 @@ Stopped(s, sc, c) ==
 \* frames that must have reached the client by now (C06 "no hold-up", C01, C10 "never hang")
 FramesOwed(s, sc, c) ==
     LET dp == DonePrefix(s, sc, c, 1)
-        sl == Slots(sc, c)
+        sl == Slots(s, c)
         closing == /\ dp = Len(sl) /\ (Stopped(s, sc, c) \/ s.fault[c + 1] = "half")
         F == {i \in 1..dp : SlotFlushes(M(sc, c, sl[i]))}
     IN  IF closing THEN dp ELSE IF F = {} THEN 0 ELSE MaxOf(F)
@@ -137,6 +138,13 @@ BodiesSent(s, sc, c) ==
     \/ \A m \in s.deliv[c + 1] : s.sent[c + 1] >= M(sc, c, m).be
 
 Fam(sc) == sc.prop
+
+\* Families whose scenarios vary the client's INPUT under fixed, simple handler programs: whatever
+\* goes wrong there (a valid request rejected, a follower lost, a wrong close) is owned by the
+\* family's property.  In the schedule families (C01 C06 C07 C08 C11 C17 C20) guards keep their
+\* natural owner.
+InputFamilies == {"C02", "C03", "C09", "C10", "C12", "C13", "C15", "C16", "C18"}
+Own(sc, default) == IF Fam(sc) \in InputFamilies THEN Fam(sc) ELSE default
 
 \* -------------------------------------------------------------------------
 \* events
@@ -165,7 +173,7 @@ Deliver(s, sc, e) ==
                     ELSE IF StopIdx(sc, c) < NM(sc, c) THEN M(sc, c, StopIdx(sc, c)).why ELSE "C12"),
                    "DeliveredAfterStop")
               \o V(Complete(s, sc, c, m), "C15", "IncompleteDelivered")
-              \o V(e.headok, (IF Fam(sc) \in {"C09", "C13", "C03"} THEN Fam(sc) ELSE "C02"), "HeadMismatch")
+              \o V(e.headok, Own(sc, "C02"), "HeadMismatch")
               \o V(m \notin s.deliv[c + 1], "C07", "DeliveredTwice")
               \* C02: the peer address is the client's socket address on TCP, absent otherwise
               \o V(IF sc.transport = "tcp" THEN e.peer = s.local[c + 1] ELSE e.peer = "", "C02", "PeerAddress") ]
@@ -195,7 +203,7 @@ AnsEnd(s, sc, e) ==
 \* a response frame parsed by the client
 CFrame(s, sc, e) ==
     LET c == e.c
-        sl == Slots(sc, c)
+        sl == Slots(s, c)
         i == s.fcount[c + 1] + 1
     IN
     IF s.fbad[c + 1] THEN [s |-> [s EXCEPT !.fcount[c + 1] = IF e.interim THEN @ ELSE i], v |-> <<>>]
@@ -231,20 +239,20 @@ CFrame(s, sc, e) ==
              \* the application's own response was expected
              [ s |-> [s EXCEPT !.fcount[c + 1] = i, !.fbad[c + 1] = TRUE],
                v |-> IF e.oc >= 0 THEN V(FALSE, ordp, "FrameOutOfOrder")
-                     ELSE V(FALSE, (IF M(sc, c, sl[i]).cls = "ok" THEN "C06" ELSE M(sc, c, sl[i]).why), "FrameStatus") ]
+                     ELSE V(FALSE, (IF M(sc, c, sl[i]).cls = "ok" THEN Own(sc, "C06") ELSE M(sc, c, sl[i]).why), "FrameStatus") ]
         ELSE IF j < i
         THEN [ s |-> [s EXCEPT !.fcount[c + 1] = i, !.fbad[c + 1] = TRUE], v |-> V(FALSE, ordp, "FrameOutOfOrder") ]
         ELSE
         LET mm == sl[j]  x == M(sc, c, mm)
             isok == x.cls = "ok"
-            rejp == IF isok THEN "C06" ELSE x.why
+            rejp == IF isok THEN Own(sc, "C06") ELSE x.why
             explen == IF isok /\ x.how \in {"respond", "writer"} /\ ~x.nobody THEN x.rlen ELSE -1
             \* slots i..j-1 were skipped: a finished one lost its response (C06), an unfinished one
             \* was overtaken (C01)
             skipped == i..(j - 1)
             lost == {k \in skipped : SlotDone(s, sc, c, sl[k])}
             overtaken == skipped \ lost
-            lostp == IF \E k \in lost : M(sc, c, sl[k]).cls # "ok" THEN M(sc, c, sl[CHOOSE k \in lost : M(sc, c, sl[k]).cls # "ok"]).why ELSE "C06"
+            lostp == IF \E k \in lost : M(sc, c, sl[k]).cls # "ok" THEN M(sc, c, sl[CHOOSE k \in lost : M(sc, c, sl[k]).cls # "ok"]).why ELSE Own(sc, "C06")
         IN
         [ s |-> [s EXCEPT !.fcount[c + 1] = j,
                           \* a body that is not the owner's is the trace of foreign bytes: what the
@@ -263,11 +271,11 @@ CFrame(s, sc, e) ==
 \* which property owns an unexpected end of stream
 EofOwner(s, sc, c) ==
     IF StopIdx(sc, c) < NM(sc, c) /\ M(sc, c, StopIdx(sc, c)).cls # "ok" THEN M(sc, c, StopIdx(sc, c)).why
-    ELSE IF Fam(sc) \in {"C15", "C06", "C10", "C20"} THEN Fam(sc) ELSE "C12"
+    ELSE IF Fam(sc) \in {"C06", "C20"} THEN Fam(sc) ELSE Own(sc, "C12")
 
 CEof(s, sc, e) ==
     LET c == e.c
-        sl == Slots(sc, c)
+        sl == Slots(s, c)
         gone == s.fault[c + 1] \in {"close", "reset"}
         \* every delivered request already has its frame
         pending == {mm \in s.deliv[c + 1] : \E i \in 1..Len(sl) : sl[i] = mm /\ i > s.fcount[c + 1]}
@@ -287,16 +295,16 @@ Quiescent(s, sc, e, rb, dropped) ==
     LET ph == e.ph
         conns == {c \in 0..(NC(sc) - 1) : s.fault[c + 1] \in {"none", "half"} /\ ~sc.conns[c + 1].noread}
         stallp(c, m) ==
-            IF Fam(sc) \in {"C07", "C08", "C11", "C18", "C09", "C10", "C16", "C12", "C15", "C13"} THEN Fam(sc)
-            ELSE IF Fam(sc) = "C20" THEN "C08" ELSE IF Fam(sc) = "C03" THEN "C09" ELSE "C11"
+            IF Fam(sc) \in {"C07", "C08", "C11"} THEN Fam(sc)
+            ELSE IF Fam(sc) = "C20" THEN "C08" ELSE Own(sc, "C11")
         undeliv(c) == {m \in 0..(NM(sc, c) - 1) : Deliverable(s, sc, c, m) /\ m \notin s.deliv[c + 1]}
         owed(c) == FramesOwed(s, sc, c)
-        frp(c) == IF Fam(sc) \in {"C10", "C16", "C08", "C12", "C15", "C18", "C09", "C13"} THEN Fam(sc)
-                  ELSE IF Fam(sc) = "C20" /\ dropped THEN "C20" ELSE "C06"
+        frp(c) == IF Fam(sc) = "C08" THEN "C08"
+                  ELSE IF Fam(sc) = "C20" /\ dropped THEN "C20" ELSE Own(sc, "C06")
         eofowed(c) ==
             /\ s.fault[c + 1] \in {"none", "half"}
-            /\ DonePrefix(s, sc, c, 1) = Len(Slots(sc, c))
-            /\ s.fcount[c + 1] >= Len(Slots(sc, c))
+            /\ DonePrefix(s, sc, c, 1) = Len(Slots(s, c))
+            /\ s.fcount[c + 1] >= Len(Slots(s, c))
             /\ BodiesSent(s, sc, c)
             /\ \/ Stopped(s, sc, c)
                \/ s.fault[c + 1] = "half" /\ \A m \in 0..LastIdx(sc, c) : (M(sc, c, m).cls = "ok" => (m \in s.deliv[c + 1] \/ ~Complete(s, sc, c, m)))
@@ -309,7 +317,7 @@ Quiescent(s, sc, e, rb, dropped) ==
              THEN V(\A c \in conns : undeliv(c) = {}, stallp(0, 0), "RequestNotDelivered")
              ELSE <<>>)
             \o V(\A c \in conns : s.fbad[c + 1] \/ s.fcount[c + 1] >= owed(c), frp(0), "ResponseNotReceived")
-            \o V(\A c \in conns : eofowed(c) => s.ceof[c + 1], (IF Fam(sc) \in {"C10", "C16", "C15", "C20"} THEN Fam(sc) ELSE "C12"), "NotClosedAfterLastResponse")
+            \o V(\A c \in conns : eofowed(c) => s.ceof[c + 1], (IF Fam(sc) = "C20" THEN "C20" ELSE Own(sc, "C12")), "NotClosedAfterLastResponse")
             \o V(\A c \in 0..(NC(sc) - 1) : (s.fault[c + 1] \in {"close", "reset", "half"} /\ s.sent[c + 1] < 10000000) => ~(stuckread(c) /\ ph >= 1), "C15", "BodyReadBlockedForever") ]
 
 CStep(s, sc, e, rb, dropped) ==
